@@ -8,6 +8,9 @@ mod gen;
 mod gspec;
 mod model;
 mod grammar_text;
+mod lexgen;
+mod lexmodel;
+mod lexoverlap;
 mod props;
 mod rtree;
 mod run;
